@@ -225,6 +225,51 @@ M("C14", "module-level-transform-memo", "c2.py", "", "", "C14.R6", edits=[
     ("c2.py", "class HttpDataTransform:\n", "_SEEN_STEPS = {}\n\n\nclass HttpDataTransform:\n"),
     ("c2.py", _T_LOOP, "        _SEEN_STEPS[len(_SEEN_STEPS)] = c2data\n" + _T_LOOP),
 ])
+# memoised factories (benign C10n hoists the call-invariant `Reconstructor(c2profile_parser)` into a zero-argument
+# lru_cache factory): the cached object is a lazily built module-level object; the twins keep it inside the functions that
+# use it, the mutants modify it or hand it to the callers of an entry point
+_C2P_IMPORT = ("c2profile.py", "import collections\nimport logging\n", "import collections\nimport functools\nimport logging\n")
+_C2P_TEXT = "        return Reconstructor(c2profile_parser).reconstruct(self.tree, postproc)\n"
+_C2P_DICT = "        items = Reconstructor(c2profile_parser)._reconstruct(self.tree)\n"
+_C2P_VTS = "def value_to_string(value: Union[str, bytes]) -> str:\n"
+_MBL = "    return sorted({p8(x) for x in range(256)} - set(exclude or []))\n"
+_MBL_DEF = "def make_byte_list(exclude: List[bytes] = None) -> List[bytes]:\n"
+T("C14", "twin-shared-reconstructor-functools-cache-local", "c2profile.py", "", "", edits=[
+    _C2P_IMPORT,
+    ("c2profile.py", _C2P_VTS, "@functools.cache\ndef _shared_reconstructor():\n    return Reconstructor(c2profile_parser)\n\n\n" + _C2P_VTS),
+    ("c2profile.py", _C2P_TEXT, "        reconstructor = _shared_reconstructor()\n        return reconstructor.reconstruct(self.tree, postproc)\n"),
+    ("c2profile.py", _C2P_DICT, "        items = _shared_reconstructor()._reconstruct(self.tree)\n"),
+])
+T("C14", "twin-shared-reconstructor-module-constant", "c2profile.py", "", "", edits=[
+    ("c2profile.py", _C2P_VTS, "_RECONSTRUCTOR = Reconstructor(c2profile_parser)\n\n\n" + _C2P_VTS),
+    ("c2profile.py", _C2P_TEXT, "        return _RECONSTRUCTOR.reconstruct(self.tree, postproc)\n"),
+])
+T("C14", "twin-shared-reconstructor-lazy-global", "c2profile.py", "", "", edits=[
+    ("c2profile.py", _C2P_VTS, "_reconstructor = None\n\n\ndef _get_reconstructor():\n    global _reconstructor\n    if _reconstructor is None:\n"
+                               "        _reconstructor = Reconstructor(c2profile_parser)\n    return _reconstructor\n\n\n" + _C2P_VTS),
+    ("c2profile.py", _C2P_TEXT, "        return _get_reconstructor().reconstruct(self.tree, postproc)\n"),
+])
+T("C14", "twin-memoised-byte-universe-copied-by-user", "beacon.py", "", "", edits=[
+    ("beacon.py", _MBL_DEF, "@functools.lru_cache(maxsize=None)\ndef _all_single_bytes():\n    return [p8(x) for x in range(256)]\n\n\n" + _MBL_DEF),
+    ("beacon.py", _MBL, "    return sorted(set(_all_single_bytes()) - set(exclude or []))\n"),
+])
+M("C14", "memoised-byte-universe-edited-by-user", "beacon.py", "", "", "C14.R6", edits=[
+    ("beacon.py", _MBL_DEF, "@functools.lru_cache(maxsize=None)\ndef _all_single_bytes():\n    return [p8(x) for x in range(256)]\n\n\n" + _MBL_DEF),
+    ("beacon.py", _MBL, "    keys = _all_single_bytes()\n    for key in exclude or []:\n        if key in keys:\n            keys.remove(key)\n    return keys\n"),
+])
+M("C14", "memoised-byte-universe-handed-out", "beacon.py", "", "", "C14.R6", edits=[
+    ("beacon.py", _MBL_DEF, "@functools.lru_cache(maxsize=None)\ndef _all_single_bytes():\n    return [p8(x) for x in range(256)]\n\n\n" + _MBL_DEF),
+    ("beacon.py", _MBL, "    if not exclude:\n        return _all_single_bytes()\n" + _MBL),
+])
+M("C14", "memoised-pretty-function-list-result", "beacon.py", "def parse_execute_list(data: bytes) -> List[str]:\n",
+  "@functools.lru_cache(maxsize=64)\ndef parse_execute_list(data: bytes) -> List[str]:\n", "C14.R6")
+M("C14", "shared-reconstructor-state-reset-by-user", "c2profile.py", "", "", "C14.R6", edits=[
+    _C2P_IMPORT,
+    ("c2profile.py", _C2P_VTS, "@functools.lru_cache(maxsize=None)\ndef _shared_reconstructor():\n    return Reconstructor(c2profile_parser)\n\n\n" + _C2P_VTS),
+    ("c2profile.py", _C2P_TEXT, "        reconstructor = _shared_reconstructor()\n        reconstructor.rules_for_root.clear()\n"
+                                "        return reconstructor.reconstruct(self.tree, postproc)\n"),
+])
+
 T("C14", "twin-from-file-next-candidate", "beacon.py",
   "        for config_block, extra_info in iter_beacon_config_blocks(fobj, xor_keys=xor_keys, all_xor_keys=all_xor_keys):\n"
   "            bconfig = cls(config_block)\n",
